@@ -123,3 +123,104 @@ Proof.
   - split; [reflexivity|]. intros f H. eapply is_mapping_denote in H; [|reflexivity]. destruct H as [d [Hd Hx]].
     vm_compute in Hd. injection Hd as <-. split; rewrite Hx; reflexivity.
 Qed.
+
+(* ================================================================ single names on scopes that need not denote *)
+Require Import QV.C13.SpecLazy.
+
+Lemma pfold_inv g : forall xs acc d, pfold g xs acc = Ok d -> forall y, In y xs -> exists v, g y = Ok v.
+Proof.
+  induction xs as [|z xs IH]; intros acc d H y Hy; [destruct Hy|].
+  cbn in H. destruct (g z) as [v|] eqn:Ez; [|discriminate].
+  destruct Hy as [<-|Hy]; [eauto|]. eapply IH; eauto.
+Qed.
+
+Lemma pfold_err g : forall xs acc er, pfold g xs acc = Err er -> exists y er', In y xs /\ g y = Err er'.
+Proof.
+  induction xs as [|z xs IH]; intros acc er H; [discriminate|].
+  cbn in H. destruct (g z) as [v|er'] eqn:Ez.
+  - destruct (IH _ _ H) as [y [e' [Hy Hg]]]. exists y, e'. split; [now right|exact Hg].
+  - exists z, er'. split; [now left|exact Ez].
+Qed.
+
+Lemma eval_none_var env e y : In y (free_vars e) -> env y = None -> eval env e = None.
+Proof.
+  intros Hy Hn. destruct (eval env e) as [v|] eqn:E; [|reflexivity].
+  destruct (eval_some_vars _ _ _ E y Hy) as [w Hw]. congruence.
+Qed.
+
+(* a cache-free lookup returns the value of the name, on every scope *)
+Lemma pget_value_at : forall s x, to_opt (pget s x) = value_at s x.
+Proof.
+  induction s using scope_ind'; intros x.
+  - cbn. destruct (lookup vals x); reflexivity.
+  - cbn [pget value_at]. destruct (lookup m x) as [e|]; [|apply IHs].
+    destruct (pfold (pget s) (vars e) []) as [env|er] eqn:Ef.
+    + pose proof (pfold_inv _ _ _ _ Ef) as Hall. rewrite (pfold_ok _ _ [] Hall) in Ef. injection Ef as <-.
+      cbn [app]. unfold eval_env.
+      rewrite (eval_agree (lookup (vals_of (pget s) (vars e))) (fun y => value_at s y) e).
+      * destruct (eval (fun y => value_at s y) e); reflexivity.
+      * intros y Hy. rewrite lookup_vals_of.
+        assert (In y (vars e)) as Hv by (apply in_vars, Hy).
+        assert (mem y (vars e) = true) as -> by (apply mem_spec, Hv).
+        destruct (Hall y Hv) as [w Hw]. unfold val_of. rewrite Hw, <- IHs, Hw. reflexivity.
+    + destruct (pfold_err _ _ _ _ Ef) as [y [er' [Hy Hg]]]. cbn [to_opt].
+      symmetry. apply (eval_none_var _ e y); [apply in_vars, Hy|]. now rewrite <- IHs, Hg.
+  - cbn [pget value_at]. destruct (N.eqb x n); [reflexivity|apply IHs].
+  - cbn [pget value_at]. induction H as [|[y sub] l Hs Hl IH]; [reflexivity|].
+    destruct (N.eqb y x); [apply Hs|apply IH].
+Qed.
+
+(* when the scope denotes, it is the entry of the denoted mapping *)
+Lemma value_at_denote s d x : wf_scope s = true -> denote_scope s = Ok d -> value_at s x = lookup d x.
+Proof.
+  intros Hwf Hd. rewrite <- pget_value_at, (pget_denote s Hwf d Hd x). destruct (lookup d x); reflexivity.
+Qed.
+
+(* a dictionary view that returns holds the value of each of its names (cache-free path) *)
+Lemma pasd_entries : forall s d, pasd s = Ok d -> forall x w, lookup d x = Some w -> value_at s x = Some w.
+Proof.
+  induction s using scope_ind'; intros d Hd x w Hx.
+  - cbn in Hd. injection Hd as <-. exact Hx.
+  - cbn [pasd] in Hd. destruct (pkeys s) as [ks|]; [|discriminate].
+    rewrite <- pget_value_at.
+    rewrite (pfold_lookup _ _ _ _ Hd (fun y u (Hl : lookup [] y = Some u) => ltac:(discriminate)) x w Hx). reflexivity.
+  - cbn [pasd] in Hd. destruct (pasd s) as [di|] eqn:Ei; [|discriminate]. cbn in Hd. injection Hd as <-.
+    rewrite lookup_dict_set in Hx. cbn [value_at]. rewrite (N.eqb_sym x n).
+    destruct (N.eqb n x); [exact Hx|]. exact (IHs di eq_refl x w Hx).
+  - cbn [pasd] in Hd. rewrite <- pget_value_at.
+    rewrite (pfold_lookup _ _ _ _ Hd (fun y u (Hl : lookup [] y = Some u) => ltac:(discriminate)) x w Hx). reflexivity.
+Qed.
+
+Lemma pitems_entries s d : pitems s = Ok d -> forall x v, lookup d x = Some v -> value_at s x = Some v.
+Proof.
+  destruct s; try exact (pasd_entries _ d).
+  cbn [pitems]. intros Hd x v Hx. rewrite <- pget_value_at.
+  rewrite (pfold_lookup _ _ _ _ Hd (fun y w (Hl : lookup [] y = Some w) => ltac:(discriminate)) x v Hx). reflexivity.
+Qed.
+
+(* the same in every reachable cache state *)
+Lemma p_C13_lookup_partial : forall s0 ops s c,
+  exec (s0, cempty) ops = (s, c) ->
+  (forall x, to_opt (fst (get s c x)) = value_at s x) /\
+  (forall d, fst (as_dict s c) = Ok d -> forall x v, lookup d x = Some v -> value_at s x = Some v) /\
+  (forall d, fst (items s c) = Ok d -> forall x v, lookup d x = Some v -> value_at s x = Some v) /\
+  (forall d, wf_scope s = true -> denote_scope s = Ok d -> forall x, value_at s x = lookup d x).
+Proof.
+  intros s0 ops s c He.
+  pose proof (exec_cache_ok ops s0 cempty (cache_ok_empty s0)) as Hc. rewrite He in Hc. cbn [fst snd] in Hc.
+  split; [|split; [|split]].
+  - intros x. rewrite (proj1 (get_refines s c x Hc)). apply pget_value_at.
+  - intros d Hd. rewrite (proj1 (proj2 (keys_asd_refines s c Hc))) in Hd. exact (pasd_entries s d Hd).
+  - intros d Hd. rewrite (proj1 (items_refines s c Hc)) in Hd. exact (pitems_entries s d Hd).
+  - intros d Hwf Hd x. exact (value_at_denote s d x Hwf Hd).
+Qed.
+
+(* non-vacuity: a layer with an expression over a name nobody provides (p3 = p5 + 1) above a swap: the scope denotes
+   nothing, p3 has no value, the swapped names have theirs; a lookup on the fresh objects returns them *)
+Lemma p_C13_lookup_partial_nontrivial :
+  let s := SMapped (SMapped (SDict [(0%N, 1#1); (1%N, 2#1)] [0%N]) [(0%N, EVar 1%N); (1%N, EVar 0%N)])
+                   [(3%N, EAdd (EVar 5%N) (EConst (1#1))); (2%N, EAdd (EVar 0%N) (EVar 0%N))] in
+  denote_scope s = Err EMissing /\ value_at s 3%N = None /\ value_at s 0%N = Some (2#1) /\
+  value_at s 1%N = Some (1#1) /\ value_at s 2%N = Some (4#1) /\
+  fst (get s cempty 2%N) = Ok (4#1) /\ fst (get s cempty 3%N) = Err EMissing.
+Proof. cbv zeta. repeat split; vm_compute; reflexivity. Qed.
